@@ -108,6 +108,10 @@ struct IdxSet
    {
 #include "IdxSet_addIdx.inc"
    }
+   void add(int n)
+   {
+#include "IdxSet_add1.inc"
+   }
    void add(int n, const int i[])
    {
 #include "IdxSet_add.inc"
